@@ -66,6 +66,25 @@ class C12(Prop):
                 yield dict(entry="Copeland." + ["score", "scf", "swf"][cnt % 3], family="exh", rule="Copeland", method=["score", "scf", "swf"][cnt % 3],
                            P=P, zi=bool(cnt % 2), tb=V.TBS[cnt % 3], k=1)
                 yield dict(entry="STV.scf", family="exh", rule="STV", method="scf", P=P, zi=bool(cnt % 2), tb=["first", "random"][cnt % 2], k=1, seed=cnt)
+        # more than ten alternatives: every alternative but one has exactly one first place (so the one without must be eliminated first, and it sits at a high index
+        # or a low one), the others follow in cyclic order; and random profiles of that width
+        for i in range(30 if tier == "quick" else 500):
+            m = [11, 12, 13, 11, 12][i % 5]
+            if i % 3 == 2:
+                P = V.rand_profile(rng, rng.randint(5, 14), m)
+            else:
+                loser = (m - 1) if i % 2 == 0 else rng.randrange(m)
+                firsts = [a for a in range(m) if a != loser]
+                if i % 3 == 1: rng.shuffle(firsts)
+                P = []
+                for a in firsts:
+                    order = [a, loser] + [x for x in [(a + d) % m for d in range(1, m)] if x != loser]
+                    row = [0] * m
+                    for pos, alt in enumerate(order): row[alt] = pos + 1
+                    P.append(row)
+            yield dict(entry="STV.scf", family="many_alternatives", rule="STV", method="scf", P=P, zi=bool(i % 2), tb=["first", "first", "random"][i % 3], k=1, seed=i)
+            if i % 4 == 0:
+                yield dict(entry="Copeland.scf", family="many_alternatives", rule="Copeland", method="scf", P=P, zi=bool(i % 2), tb=V.TBS[i % 3], k=1)
         # electorates of several hundred voters (ballots with multiplicities, shuffled), close pairwise majorities
         for i in range(40 if tier == "quick" else 500):
             m = rng.randint(2, 5); total = rng.choice([257, 300, 511, 513, 600, 1000, 1500])
